@@ -50,7 +50,7 @@ Fixpoint expect (multi sp : bool) (l : list sop) : list tok :=
   | SToks sh more :: r => shape_tok sp sh :: map (shape_tok true) more ++ expect multi true r
   | SBegin :: r | SEnd :: r => expect multi (sp || multi) r
   | SComment _ :: r => expect multi sp r
-  | SEmpty :: r => expect multi sp r
+  | SEmpty :: r => expect multi true r
   end.
 
 (* reader state after the text written so far.  When the writer is not at the
@@ -152,7 +152,7 @@ Proof.
     + rewrite orb_false_r. apply IH; assumption.
     + apply IH; assumption.
     + pose proof (IH false _ ts (if first then b else true) Gl (rel_empty first out 0 ts b simple_sep R (or_introl eq_refl))) as X.
-      cbn [negb] in X. destruct first; exact X.
+      exact X.
 Qed.
 
 Theorem simple_tokens l : Forall good_sop l ->
@@ -169,7 +169,7 @@ Proof.
   induction l as [|o l IH]; intros first fb d out ts b G B R.
   - cbn [map fold_left expect]. eexists. split; [reflexivity|]. cbn [snd]. rewrite app_nil_r. eapply rel_final, R.
   - inversion G as [|? ? Go Gl]; subst. cbn [map fold_left].
-    destruct o as [sh more| | |c]; cbn [erase expect orb balanced] in *.
+    destruct o as [sh more| | |c|]; cbn [erase expect orb balanced] in *.
     + destruct Go as [Go Gm]. unfold tab_step at 2. cbn [bind].
       set (c := if d =? 0 then tab_sep_outer else if fb then tab_sep_first else tab_sep_inner).
       assert (C : c = 32 \/ c = 9).
@@ -187,6 +187,16 @@ Proof.
     + rewrite orb_false_r. apply andb_true_iff in B as [B1 B2]. unfold tab_step at 2. cbn [bind].
       destruct (d =? 0) eqn:E; [lia|]. apply IH; assumption.
     + unfold tab_step at 2. cbn [bind]. apply IH; assumption.
+    + unfold tab_step at 2. cbn [bind].
+      set (c := if d =? 0 then tab_sep_outer else if fb then tab_sep_first else tab_sep_inner).
+      assert (C : c = 32 \/ c = 9).
+      { subst c. unfold tab_sep_outer, tab_sep_first, tab_sep_inner. destruct (d =? 0); [right; reflexivity|].
+        destruct fb; [right|left]; reflexivity. }
+      assert (E : (if first then [] else if d =? 0 then [tab_sep_outer] else if fb then [tab_sep_first] else [tab_sep_inner])
+                  = (if first then [] else [c])).
+      { subst c. destruct first; [reflexivity|]. destruct (d =? 0); [reflexivity|]. destruct fb; reflexivity. }
+      rewrite E.
+      exact (IH false false d _ ts (if first then b else true) Gl B (rel_empty first out 0 ts b c R C)).
 Qed.
 
 Theorem tabbed_tokens l : Forall good_sop l -> balanced 0 l = true ->
@@ -248,7 +258,7 @@ Proof.
   induction l as [|o l IH]; intros col ind first out ts b d G B R I.
   - cbn [map fold_left snd expect balanced] in *. rewrite app_nil_r. apply N.eqb_eq in B. subst d. eapply rel_final, R.
   - inversion G as [|? ? Go Gl]; subst. cbn [map fold_left].
-    destruct o as [sh more| | |c]; cbn [erase expect orb balanced] in *.
+    destruct o as [sh more| | |c|]; cbn [erase expect orb balanced] in *.
     + destruct Go as [Go Gm]. unfold ml_step at 2. unfold ml_token.
       rewrite (IH _ ind false _ (rev (map (shape_tok true) more) ++ shape_tok (if first then b else true) sh :: ts) false d Gl B).
       * apply f_equal. apply rev_toks_app.
@@ -290,6 +300,10 @@ Proof.
            ++ intros [K|K]; [discriminate | apply Go, K].
         -- intros _. split; [exact I1 | reflexivity].
       * apply (IH col None first out ts b d Gl B R). intros N. congruence.
+    + unfold ml_step at 2. unfold ml_token.
+      apply (IH _ ind false _ ts (if first then b else true) d Gl B).
+      * unfold ml_sep. apply rel_empty; [exact R | left; reflexivity].
+      * intros N. destruct (I N) as [I1 I2]. split; [exact I1 | reflexivity].
 Qed.
 
 Theorem multi_tokens l : Forall good_sop l -> balanced 0 l = true ->
